@@ -146,7 +146,7 @@ pub fn run_property(def: PropertyDef, ctx: &Ctx) -> PropertyRun {
         }
     }
     let mut ctx = ctx.clone();
-    ctx.scenario_cap_s = (ctx.budget_s / def.scenarios.len().max(1) as f64).max(if ctx.quick() { 4.0 } else { 60.0 });
+    ctx.scenario_cap_s = (ctx.budget_s / def.scenarios.len().max(1) as f64).max(if ctx.quick() { 6.0 } else { 60.0 });
     let ctx = &ctx;
     for i in order {
         let s = &def.scenarios[i];
